@@ -92,6 +92,10 @@ def gen_history(rng, tier, bound=False):
     return ops
 
 
+class BoomKV(KeyError, ValueError):
+    """the wrapped function's own failure: also a KeyError, which the library handles for its own dictionary lookups"""
+
+
 def make_cached(form, maxsize, typed, kind):
     """kind: function | method | classmethod | staticmethod. Returns (call, clear, info, discard, params)."""
     state = {"n": 0, "none_at": NONE_AT["n"]}
@@ -100,7 +104,7 @@ def make_cached(form, maxsize, typed, kind):
         n = state["n"]
         state["n"] += 1
         if fails(args, kw):
-            raise ValueError("boom")
+            raise BoomKV("boom")
         return None if n == state["none_at"] else n     # one invocation per history returns None: a legal result to cache
 
     def deco_async():
